@@ -84,8 +84,389 @@ def flat3 {G : LieModel α} (a b c : List (Mat α G.dof G.dof)) : Array α :=
 
 end Spl
 
+/-!
+## Audit ops (prec `f64a`): exact oracle, independent of the code's recursions
+
+Inputs AND the implementation's outputs come in as bit patterns.  The curve is evaluated from its
+definition: `g(u) = [g₀] ∏ⱼ exp(b̃ⱼ(u) v̂ⱼ)` with `b̃ⱼ` the exact rational polynomial given by the
+basis matrix, matrix exponentials by power series in 320-bit fixed point (`Oracle.BMat.exp`).
+Derivatives with respect to `u` are taken by Leibniz on the product in jet form
+(`exp(b(u+h)V) = exp(b(u)V)·exp((b(u+h)−b(u))V)`, truncated at `h³`); body velocity, acceleration,
+jerk are the Taylor coefficients of `g⁻¹g'`.  Jacobians are central differences of that oracle
+(step `2⁻⁴⁸`, so the truncation error is ~`2⁻⁹⁶`).  The logarithms needed for control points are
+solved by a chord-Newton iteration on `exp(ŵ) = g_{i-1}⁻¹ g_i` in fixed point (seed: the Float
+model's `rminus`; the seed only selects the branch).
+
+    a_cs_vs   G  K Bcum u vs | g vel acc jer            → err_g err_vel err_acc err_jer
+    a_cs_gs   G  K Bcum u gs | g vel acc jer …          → err_g err_vel err_acc err_jer maxRot²
+    a_cs_dvs  G  K Bcum u vs | dg dvel dacc             → err_dg err_dvel err_dacc
+    a_cs_dgs  G  K Bcum u gs | dg dvel dacc             → err_dg err_dvel err_dacc
+    a_bs_val  G  K Bcum t0 dt t ctrl | g vel acc        → err_g err_vel err_acc sameWindow istar u
+    a_bs_equiv G h g vel acc g' vel' acc' (dt)          → err_g err_vel err_acc
+  Errors are `max|·| / max(1, max|expected|)`; velocities/accelerations of `a_bs_val` are compared
+  in `u`-units (multiplied by `dt`, `dt²`).
+-/
+namespace SplA
+open Oracle
+
+abbrev Jet := Array BMat     -- coefficients of h^0 … h^3
+
+def bsmul (c : Int) (A : BMat) : BMat := BMat.ofFn A.n (fun i j => (c * A.get i j) >>> FB)
+def bscale (A : BMat) (k : Int) : BMat := BMat.ofFn A.n (fun i j => k * A.get i j)
+def bshl (A : BMat) (s : Nat) : BMat := BMat.ofFn A.n (fun i j => A.get i j <<< s)
+def fx (q : Rat) : Int := BigFix.ofRat q
+
+def jetMul (a b : Jet) : Jet :=
+  let n := (a.getD 0 default).n
+  Array.ofFn (n := 4) (fun d =>
+    (List.range (d.val + 1)).foldl (fun s p => s.add ((a.getD p default).mul (b.getD (d.val - p) default)))
+      (BMat.ofFn n (fun _ _ => 0)))
+
+def jetConst (A : BMat) : Jet :=
+  let Z := BMat.ofFn A.n (fun _ _ => 0)
+  #[A, Z, Z, Z]
+
+/-- `d^p/du^p` of the polynomial `Σ_r u^r B[r][j]` at `u`, exactly -/
+def polyDeriv (K : Nat) (B : Array Rat) (j p : Nat) (u : Rat) : Rat :=
+  (List.range (K + 1)).foldl (fun s r =>
+    if r < p then s else
+      let ff : Nat := (List.range p).foldl (fun a t => a * (r - t)) 1
+      s + (ff : Rat) * u ^ (r - p) * B.getD (r * (K + 1) + j) 0) 0
+
+def hatB (G : LieModel Rat) (w : Array Rat) : BMat :=
+  BMat.ofRMat (RMat.ofMat (G.hat (ofArray G.dof w)))
+
+/-- jet of `exp(b(u+h) V)` given `b^{(0..3)}(u)` and `v` -/
+def factorJet (G : LieModel Rat) (b : Array Rat) (v : Array Rat) : Jet :=
+  let V := hatB G v
+  let E0 := BMat.exp (hatB G (v.map (· * b.getD 0 0)))
+  let c1 := b.getD 1 0
+  let c2 := b.getD 2 0 / 2
+  let c3 := b.getD 3 0 / 6
+  let V2 := V.mul V
+  let V3 := V2.mul V
+  let j1 := bsmul (fx c1) V
+  let j2 := (bsmul (fx c2) V).add (bsmul (fx (c1 * c1 / 2)) V2)
+  let j3 := ((bsmul (fx c3) V).add (bsmul (fx (c1 * c2)) V2)).add (bsmul (fx (c1 * c1 * c1 / 6)) V3)
+  #[E0, E0.mul j1, E0.mul j2, E0.mul j3]
+
+/-- `exp(−b v̂)` -/
+def factorInv (G : LieModel Rat) (b0 : Rat) (v : Array Rat) : BMat :=
+  BMat.exp (hatB G (v.map (· * (-b0))))
+
+/-- Taylor coefficients `Ω₀, Ω₁, Ω₂` of `g⁻¹g'` from the jet of `g` and `g₀⁻¹`:
+    body velocity `Ω₀`, acceleration `Ω₁`, jerk `2Ω₂` -/
+def omegas (g : Jet) (g0inv : BMat) : BMat × BMat × BMat :=
+  let A1 := g0inv.mul (g.getD 1 default)
+  let A2 := g0inv.mul (g.getD 2 default)
+  let A3 := g0inv.mul (g.getD 3 default)
+  let A11 := A1.mul A1
+  let O0 := A1
+  let O1 := (bscale A2 2).sub A11
+  let O2 := (((bscale A3 3).sub (bscale (A1.mul A2) 2)).sub (A2.mul A1)).add (A11.mul A1)
+  (O0, O1, bscale O2 2)
+
+def errM (A : RMat) (B : BMat) (scale : Rat := 1) : Float :=
+  let Br := B.toRMat
+  let d := (A.sub Br).maxAbs
+  let s := Br.maxAbs
+  let s := if s < scale then scale else s
+  ratToFloat (d / s)
+
+def hatR (G : LieModel Rat) (x : Array Rat) (off : Nat) : RMat := RMat.ofMat (G.hat (ofArray G.dof x off))
+def matR (G : LieModel Rat) (x : Array Rat) (off : Nat) : RMat := RMat.ofMat (G.matrix (ofArray G.rep x off))
+
+/-- everything the oracle knows about the curve with differences `vs` (and an optional anchor) -/
+structure Curve where
+  jets : Array Jet          -- factor jets
+  invs : Array BMat         -- exp(−b_j v̂_j)
+  pre : Array Jet           -- pre[j] = ∏_{i<j} jets[i]   (size K+1)
+  suf : Array Jet           -- suf[j] = ∏_{i≥j} jets[i]   (size K+1)
+  preInv : Array BMat       -- preInv[j] = (∏_{i<j} E_i)⁻¹ = E_{j-1}⁻¹ ⋯ E_0⁻¹
+  sufInv : Array BMat       -- sufInv[j] = (∏_{i≥j} E_i)⁻¹
+  deriving Inhabited
+
+def bvalsR (K : Nat) (B : Array Rat) (u : Rat) (j : Nat) : Array Rat :=
+  #[polyDeriv K B (j + 1) 0 u, polyDeriv K B (j + 1) 1 u, polyDeriv K B (j + 1) 2 u, polyDeriv K B (j + 1) 3 u]
+
+def mkCurve (G : LieModel Rat) (K : Nat) (B : Array Rat) (u : Rat) (vs : Array (Array Rat)) : Curve := Id.run do
+  let n := G.dim
+  let I := BMat.ident n
+  let jets : Array Jet := Array.ofFn (n := K) (fun j => factorJet G (bvalsR K B u j.val) (vs.getD j.val #[]))
+  let invs : Array BMat := Array.ofFn (n := K) (fun j => factorInv G (polyDeriv K B (j.val + 1) 0 u) (vs.getD j.val #[]))
+  let mut pre : Array Jet := #[jetConst I]
+  let mut preInv : Array BMat := #[I]
+  for j in [0:K] do
+    pre := pre.push (jetMul (pre.getD j default) (jets.getD j default))
+    preInv := preInv.push ((invs.getD j default).mul (preInv.getD j default))
+  let mut sufR : Array Jet := #[jetConst I]       -- reversed: sufR[k] = ∏_{i ≥ K-k}
+  let mut sufInvR : Array BMat := #[I]
+  for k in [0:K] do
+    let j := K - 1 - k
+    sufR := sufR.push (jetMul (jets.getD j default) (sufR.getD k default))
+    sufInvR := sufInvR.push ((sufInvR.getD k default).mul (invs.getD j default))
+  let suf := Array.ofFn (n := K + 1) (fun j => sufR.getD (K - j.val) default)
+  let sufInv := Array.ofFn (n := K + 1) (fun j => sufInvR.getD (K - j.val) default)
+  return ⟨jets, invs, pre, suf, preInv, sufInv⟩
+
+def Curve.g (c : Curve) : Jet := c.suf.getD 0 default
+def Curve.ginv (c : Curve) : BMat := c.sufInv.getD 0 default
+
+/-- the curve with factor `j` replaced by differences `v'` -/
+def Curve.replace (c : Curve) (G : LieModel Rat) (K : Nat) (B : Array Rat) (u : Rat) (j : Nat) (v : Array Rat) :
+    Jet × BMat :=
+  let F := factorJet G (bvalsR K B u j) v
+  let Fi := factorInv G (polyDeriv K B (j + 1) 0 u) v
+  (jetMul (jetMul (c.pre.getD j default) F) (c.suf.getD (j + 1) default),
+   ((c.sufInv.getD (j + 1) default).mul Fi).mul (c.preInv.getD j default))
+
+def splitVs (x : Array Rat) (off K dof : Nat) : Array (Array Rat) :=
+  Array.ofFn (n := K) (fun j => x.extract (off + j.val * dof) (off + (j.val + 1) * dof))
+
+-- ------------------------------------------------------------------ logarithm by chord iteration
+def logNear (X : BMat) : BMat := Id.run do
+  -- log(I + X) = Σ_{k≥1} (−1)^{k+1} X^k / k, 14 terms (‖X‖ ≲ 1e-6 at the last iterations)
+  let mut P := X
+  let mut S := X
+  for k in [2:15] do
+    P := P.mul X
+    let T := P.divNat k
+    S := if k % 2 == 0 then S.sub T else S.add T
+  return S
+
+def gridR (q : Rat) : Rat := BigFix.toRat (BigFix.ofRat q)
+
+def veeR (G : LieModel Rat) (L : BMat) : Array Rat :=
+  let Lr := L.toRMat
+  toArray (G.vee (.of (fun i j => Lr.get i.val j.val)))
+
+/-- `J_r(w)⁻¹` by the oracle's own series -/
+def jrInv (G : LieModel Rat) (w : Array Rat) : RMat :=
+  let J := (BMat.jacSeries (BMat.ofRMat (RMat.ofMat (G.ad (ofArray G.dof w))))).toRMat
+  match J.inverse with
+  | some Ji => RMat.ofFn Ji.n Ji.m (fun i j => gridR (Ji.get i j))
+  | none => RMat.ident G.dof
+
+/-- solve `exp(ŵ) = T` near `w0` -/
+def chordLog (G : LieModel Rat) (Jinv : RMat) (T : BMat) (w0 : Array Rat) (iters : Nat) : Array Rat := Id.run do
+  let mut w := w0
+  let I := BMat.ident T.n
+  for _ in [0:iters] do
+    let E := BMat.exp (hatB G (w.map (fun x => -x)))
+    let X := (E.mul T).sub I
+    let d := veeR G (logNear X)
+    let step := (Jinv.mul (colVec d)).a
+    w := Array.ofFn (n := w.size) (fun i => gridR (w.getD i.val 0 + step.getD i.val 0))
+  return w
+
+def bInverse (M : RMat) : BMat :=
+  match M.inverse with
+  | some Mi => BMat.ofRMat Mi
+  | none => BMat.ident M.n
+
+/-- high-precision differences `w_j = log(M_{j-1}⁻¹ M_j)`, seeds from the Float model -/
+structure Logs where
+  Ms : Array BMat
+  Minvs : Array BMat
+  Ts : Array BMat
+  ws : Array (Array Rat)
+  Jinvs : Array RMat
+  deriving Inhabited
+
+def floatSeeds (d : GDesc) (nPts : Nat) (xf : Array Float) (off : Nat) : Array (Array Rat) :=
+  let Gf : LieModel Float := GDesc.model d
+  Array.ofFn (n := nPts - 1) (fun j =>
+    let a : Vec Float Gf.rep := ofArray Gf.rep xf (off + j.val * Gf.rep)
+    let b : Vec Float Gf.rep := ofArray Gf.rep xf (off + (j.val + 1) * Gf.rep)
+    (toArray (Gf.rminus b a)).map (fun f => ratOfBits64 f.toBits))
+
+def mkLogs (G : LieModel Rat) (nPts : Nat) (x : Array Rat) (off : Nat) (seeds : Array (Array Rat)) : Logs :=
+  let Mr : Array RMat := Array.ofFn (n := nPts) (fun j => matR G x (off + j.val * G.rep))
+  let Ms := Mr.map BMat.ofRMat
+  let Minvs := Mr.map bInverse
+  let Ts : Array BMat := Array.ofFn (n := nPts - 1) (fun j => (Minvs.getD j.val default).mul (Ms.getD (j.val + 1) default))
+  let Jinvs : Array RMat := Array.ofFn (n := nPts - 1) (fun j => jrInv G (seeds.getD j.val #[]))
+  let ws : Array (Array Rat) := Array.ofFn (n := nPts - 1) (fun j =>
+    chordLog G (Jinvs.getD j.val default) (Ts.getD j.val default) (seeds.getD j.val #[]) 3)
+  ⟨Ms, Minvs, Ts, ws, Jinvs⟩
+
+/-- squared norm of each rotation part of a tangent vector (injectivity-radius report) -/
+def maxRot2 (d : GDesc) (w : Array Rat) : Rat :=
+  (rotIdx d 0).foldl (fun m idx =>
+    let s := idx.foldl (fun s i => s + (w.getD i 0) ^ 2) 0
+    if m < s then s else m) 0
+
+def HSTEP : Nat := 48     -- h = 2^-48
+
+def wideCol (x : Array Rat) (off dof nblk c : Nat) : Array Rat :=
+  -- column c of a row-major dof × (dof·nblk) matrix stored at `off`
+  Array.ofFn (n := dof) (fun r => x.getD (off + r.val * (dof * nblk) + c) 0)
+
+def maxF (a b : Float) : Float := if a < b then b else a
+
+/-- scale-aware error of a set of matrix differences: max|got − want| / max(1, max|want|) -/
+structure ErrAcc where
+  d : Rat := 0
+  s : Rat := 0
+def ErrAcc.add (e : ErrAcc) (got : RMat) (want : BMat) : ErrAcc :=
+  let W := want.toRMat
+  let dd := (got.sub W).maxAbs
+  let ss := W.maxAbs
+  ⟨if e.d < dd then dd else e.d, if e.s < ss then ss else e.s⟩
+def ErrAcc.val (e : ErrAcc) : Float := ratToFloat (e.d / (if e.s < 1 then 1 else e.s))
+
+def runAuditD (op : String) (d : GDesc) (x : Array Rat) (xf : Array Float) : Except String (Array Float) := do
+  let G : LieModel Rat := GDesc.model d
+  let K := (x.getD 0 0).floor.toNat
+  let nb := (K + 1) * (K + 1)
+  let B := x.extract 1 (1 + nb)
+  let dof := G.dof
+  let rep := G.rep
+  match op with
+  | "a_cs_vs" =>
+    if x.size ≠ 2 + nb + K * dof + rep + 3 * dof then throw "arity"
+    let u := x.getD (1 + nb) 0
+    let vs := splitVs x (2 + nb) K dof
+    let c := mkCurve G K B u vs
+    let o := 2 + nb + K * dof
+    let (O0, O1, O2) := omegas c.g c.ginv
+    return #[errM (matR G x o) (c.g.getD 0 default), errM (hatR G x (o + rep)) O0,
+             errM (hatR G x (o + rep + dof)) O1, errM (hatR G x (o + rep + 2 * dof)) O2]
+  | "a_cs_gs" =>
+    if x.size < 2 + nb + (K + 1) * rep + rep + 3 * dof then throw "arity"
+    let u := x.getD (1 + nb) 0
+    let off := 2 + nb
+    let L := mkLogs G (K + 1) x off (floatSeeds d (K + 1) xf off)
+    let c := mkCurve G K B u L.ws
+    let o := off + (K + 1) * rep
+    let (O0, O1, O2) := omegas c.g c.ginv
+    let val := (L.Ms.getD 0 default).mul (c.g.getD 0 default)
+    let mr := L.ws.foldl (fun m w => let r := maxRot2 d w; if m < r then r else m) 0
+    return #[errM (matR G x o) val, errM (hatR G x (o + rep)) O0,
+             errM (hatR G x (o + rep + dof)) O1, errM (hatR G x (o + rep + 2 * dof)) O2, ratToFloat mr]
+  | "a_cs_dvs" =>
+    if x.size ≠ 2 + nb + K * dof + 3 * dof * dof * K then throw "arity"
+    let u := x.getD (1 + nb) 0
+    let vs := splitVs x (2 + nb) K dof
+    let c := mkCurve G K B u vs
+    let o := 2 + nb + K * dof
+    let blk := dof * dof * K
+    let h : Rat := 1 / (2 : Rat) ^ HSTEP
+    let mut eg : ErrAcc := {}
+    let mut ev : ErrAcc := {}
+    let mut ea : ErrAcc := {}
+    for j in [0:K] do
+      for k in [0:dof] do
+        let vj := vs.getD j #[]
+        let vp := vj.mapIdx (fun i a => if i == k then a + h else a)
+        let vm := vj.mapIdx (fun i a => if i == k then a - h else a)
+        let (gp, gpi) := c.replace G K B u j vp
+        let (gm, gmi) := c.replace G K B u j vm
+        let W := bshl (c.ginv.mul ((gp.getD 0 default).sub (gm.getD 0 default))) (HSTEP - 1)
+        let (P0, P1, _) := omegas gp gpi
+        let (M0, M1, _) := omegas gm gmi
+        let col := j * dof + k
+        eg := eg.add (RMat.ofMat (G.hat (ofArray dof (wideCol x o dof K col)))) W
+        ev := ev.add (RMat.ofMat (G.hat (ofArray dof (wideCol x (o + blk) dof K col)))) (bshl (P0.sub M0) (HSTEP - 1))
+        ea := ea.add (RMat.ofMat (G.hat (ofArray dof (wideCol x (o + 2 * blk) dof K col)))) (bshl (P1.sub M1) (HSTEP - 1))
+    return #[eg.val, ev.val, ea.val]
+  | "a_cs_dgs" =>
+    if x.size ≠ 2 + nb + (K + 1) * rep + 3 * dof * dof * (K + 1) then throw "arity"
+    let u := x.getD (1 + nb) 0
+    let off := 2 + nb
+    let L := mkLogs G (K + 1) x off (floatSeeds d (K + 1) xf off)
+    let c := mkCurve G K B u L.ws
+    let o := off + (K + 1) * rep
+    let blk := dof * dof * (K + 1)
+    let M0 := L.Ms.getD 0 default
+    let M0inv := L.Minvs.getD 0 default
+    let F0inv := c.ginv.mul M0inv
+    let h : Rat := 1 / (2 : Rat) ^ HSTEP
+    let mut eg : ErrAcc := {}
+    let mut ev : ErrAcc := {}
+    let mut ea : ErrAcc := {}
+    for i in [0:K + 1] do
+      for k in [0:dof] do
+        let ek : Array Rat := Array.ofFn (n := dof) (fun t => if t.val == k then h else 0)
+        let Ep := BMat.exp (hatB G ek)
+        let Em := BMat.exp (hatB G (ek.map (fun a => -a)))
+        -- signs: s = +1 uses (Ep on the right of T_i, Em on the left of T_{i+1})
+        let eval1 (Er El : BMat) : Jet × BMat × BMat := Id.run do
+          -- returns (jet of ∏, its inverse at h=0, anchor matrix)
+          let mut ws := L.ws
+          if i ≥ 1 then
+            let T := (L.Ts.getD (i - 1) default).mul Er
+            ws := ws.set! (i - 1) (chordLog G (L.Jinvs.getD (i - 1) default) T (L.ws.getD (i - 1) #[]) 4)
+          if i + 1 ≤ K then
+            let T := El.mul (L.Ts.getD i default)
+            ws := ws.set! i (chordLog G (L.Jinvs.getD i default) T (L.ws.getD i #[]) 4)
+          -- rebuild the product (at most two factors changed)
+          let c2 := mkCurveFrom c G K B u ws i
+          let A := if i == 0 then M0.mul Er else M0
+          return (c2.1, c2.2, A)
+        let (gp, gpi, Ap) := eval1 Ep Em
+        let (gm, gmi, Am) := eval1 Em Ep
+        let W := bshl (F0inv.mul ((Ap.mul (gp.getD 0 default)).sub (Am.mul (gm.getD 0 default)))) (HSTEP - 1)
+        let (P0, P1, _) := omegas gp gpi
+        let (Q0, Q1, _) := omegas gm gmi
+        let col := i * dof + k
+        eg := eg.add (RMat.ofMat (G.hat (ofArray dof (wideCol x o dof (K + 1) col)))) W
+        ev := ev.add (RMat.ofMat (G.hat (ofArray dof (wideCol x (o + blk) dof (K + 1) col)))) (bshl (P0.sub Q0) (HSTEP - 1))
+        ea := ea.add (RMat.ofMat (G.hat (ofArray dof (wideCol x (o + 2 * blk) dof (K + 1) col)))) (bshl (P1.sub Q1) (HSTEP - 1))
+    return #[eg.val, ev.val, ea.val]
+  | "a_bs_val" =>
+    -- x = K Bcum t0 dt t ctrl[N·rep] | g vel acc
+    let t0 := x.getD (1 + nb) 0
+    let dt := x.getD (2 + nb) 0
+    let t := x.getD (3 + nb) 0
+    let off := 4 + nb
+    let rem := x.size - off - (rep + 2 * dof)
+    if x.size < off + (K + 1) * rep + rep + 2 * dof || rem % rep ≠ 0 then throw "arity"
+    let N := rem / rep
+    let sel := BSpline.select (α := Rat) K N t0 dt t
+    let selF := BSpline.select (α := Float) K N (xf.getD (1 + nb) 0) (xf.getD (2 + nb) 0) (xf.getD (3 + nb) 0)
+    let woff := off + sel.1 * rep
+    let L := mkLogs G (K + 1) x woff (floatSeeds d (K + 1) xf woff)
+    let c := mkCurve G K B sel.2 L.ws
+    let o := off + N * rep
+    let (O0, O1, _) := omegas c.g c.ginv
+    let val := (L.Ms.getD 0 default).mul (c.g.getD 0 default)
+    -- compare in u-units: vel·dt, acc·dt²
+    let velU : Array Rat := (x.extract (o + rep) (o + rep + dof)).map (· * dt)
+    let accU : Array Rat := (x.extract (o + rep + dof) (o + rep + 2 * dof)).map (· * (dt * dt))
+    return #[errM (matR G x o) val, errM (hatR G velU 0) O0, errM (hatR G accU 0) O1,
+             (if selF.1 == sel.1 then 1.0 else 0.0), Float.ofNat sel.1, ratToFloat sel.2]
+  | "a_bs_equiv" =>
+    -- x = h g vel acc g' vel' acc' : M(g') = M(h) M(g), vel' = vel, acc' = acc
+    if x.size ≠ 3 * rep + 4 * dof then throw "arity"
+    let Mh := matR G x 0
+    let Mg := matR G x rep
+    let Mg' := matR G x (2 * rep + 2 * dof)
+    let v := colVec (x.extract (2 * rep) (2 * rep + dof))
+    let a := colVec (x.extract (2 * rep + dof) (2 * rep + 2 * dof))
+    let v' := colVec (x.extract (3 * rep + 2 * dof) (3 * rep + 3 * dof))
+    let a' := colVec (x.extract (3 * rep + 3 * dof) (3 * rep + 4 * dof))
+    return #[relErr Mg' (Mh.mul Mg), relErr v' v, relErr a' a]
+  | _ => throw s!"unknown-audit-op {op}"
+where
+  /-- product jet and inverse for differences `ws` that differ from the base curve `c` only in
+      factors `i−1` and `i` -/
+  mkCurveFrom (c : Curve) (G : LieModel Rat) (K : Nat) (B : Array Rat) (u : Rat) (ws : Array (Array Rat)) (i : Nat) :
+      Jet × BMat :=
+    let lo := if i ≥ 1 then i - 1 else 0
+    let hi := if i + 1 ≤ K then i + 1 else K      -- factors lo … hi−1 are recomputed
+    let mid : Jet × BMat := (List.range (hi - lo)).foldl (fun (acc : Jet × BMat) t =>
+      let j := lo + t
+      let F := factorJet G (bvalsR K B u j) (ws.getD j #[])
+      let Fi := factorInv G (polyDeriv K B (j + 1) 0 u) (ws.getD j #[])
+      (jetMul acc.1 F, Fi.mul acc.2)) (jetConst (BMat.ident G.dim), BMat.ident G.dim)
+    (jetMul (jetMul (c.pre.getD lo default) mid.1) (c.suf.getD hi default),
+     ((c.sufInv.getD hi default).mul mid.2).mul (c.preInv.getD lo default))
+
+end SplA
+
 def runSpline (op grp prec : String) (args : Array String) : Option String :=
-  if !(op.startsWith "cs_" || op.startsWith "bs_") then none else
+  if !(op.startsWith "cs_" || op.startsWith "bs_" || op.startsWith "a_cs_" || op.startsWith "a_bs_") then none else
   if prec == "f64" then
     match Spl.runNum (α := Float) op grp (args.map Bits.ofHex) with
     | some (.ok out) => some (" ".intercalate (out.toList.map Bits.toHex))
@@ -96,6 +477,15 @@ def runSpline (op grp prec : String) (args : Array String) : Option String :=
     | some (.ok out) => some (" ".intercalate (out.toList.map Bits.toHex))
     | some (.error e) => some ("ERR " ++ e)
     | none => none
+  else if prec == "f64a" then
+    if !op.startsWith "a_" then none else
+    if !allFinite prec args then some "NONFINITE" else
+    match GDesc.parse grp with
+    | none => some "ERR unknown-group"
+    | some d =>
+      match SplA.runAuditD op d (ratWords prec args) (args.map Bits.ofHex) with
+      | .ok out => some (" ".intercalate (out.toList.map fhex))
+      | .error e => some ("ERR " ++ e)
   else none
 
 end Drv
